@@ -7,6 +7,8 @@ import Hgxv.Proofs.C01Sub
 import Hgxv.Proofs.C01SubOrders
 import Hgxv.Proofs.C01SubEdges
 import Hgxv.Proofs.C01SubOrdersDrop
+import Hgxv.Proofs.C01Ext
+import Hgxv.Proofs.C01Lcc
 /-! # C01 - property theorems
 
 Model and vocabulary: `Hgxv/Model/C01.lean` (concrete `Store`/`step`/`answer`, abstract `Spec`); helper lemmas:
@@ -99,10 +101,10 @@ theorem C01_spec_wellformed (k : Nat) (cs : List Cmd) (hwf : ∀ c ∈ cs, c.WF)
   refine ⟨by rw [nodes_keys h]; exact h.adj_nodup, by rw [abs_keys]; exact h.el_nodup, ?_⟩
   intro e he
   rw [abs_keys] at he
-  obtain ⟨id, hid⟩ := Option.isSome_iff_exists.mp ((mem_keys_iff _ _).mp he)
+  obtain ⟨id, hid⟩ := Option.isSome_iff_exists.mp ((C01.mem_keys_iff _ _).mp he)
   refine ⟨(h.key_canon e id hid).1, (h.key_canon e id hid).2, ?_⟩
   intro n hn
-  rw [nodes_keys h, mem_keys_iff]
+  rw [nodes_keys h, C01.mem_keys_iff]
   exact h.nodes_in id e (h.rev_of_edge _ _ hid) n hn
 
 /-- non-vacuity: the spec run of the demo history gives the expected (non-trivial) answers, and a rejected
@@ -130,7 +132,7 @@ theorem C01_incident_once (s : Store) (hr : C01.Reachable s) (n : Node) (f : Fil
   have h := hr.inv
   refine ⟨h.el_nodup, ?_, ?_⟩
   · intro e he hne
-    obtain ⟨id, hid⟩ := Option.isSome_iff_exists.mp ((mem_keys_iff _ _).mp he)
+    obtain ⟨id, hid⟩ := Option.isSome_iff_exists.mp ((C01.mem_keys_iff _ _).mp he)
     have := h.nodes_in id e (h.rev_of_edge _ _ hid) n hne
     simp [answer, this]
   · intro hn
@@ -140,7 +142,7 @@ theorem C01_incident_once (s : Store) (hr : C01.Reachable s) (n : Node) (f : Fil
     have hmemL : ∀ e, e ∈ List.filter (keepEdge o false) (incidentKeys s n) ↔
         (e ∈ keys s.edgeList ∧ n ∈ e ∧ keepEdge o false e = true) := by
       intro e
-      rw [List.mem_filter, hmem e, mem_keys_iff]
+      rw [List.mem_filter, hmem e, C01.mem_keys_iff]
       constructor
       · rintro ⟨⟨a, b⟩, c⟩; exact ⟨a, b, c⟩
       · rintro ⟨a, b, c⟩; exact ⟨⟨a, b⟩, c⟩
@@ -293,26 +295,26 @@ theorem C01_remove_node (k : Nat) (cs : List Cmd) (hwf : ∀ c ∈ cs, c.WF) (a 
   rw [(C01_refines_state k cs hwf (.copy 0 0) trivial).1] at ha
   obtain ⟨s, hs, rfl⟩ := List.mem_map.mp ha
   have hswf := abs_swf (C01_inv k cs hwf s hs)
-  have hn' : (get? (abs s).nodes n).isSome := (mem_keys_iff _ _).mp hn
+  have hn' : (get? (abs s).nodes n).isSome := (C01.mem_keys_iff _ _).mp hn
   obtain ⟨a1, d1, d2, d3, d4, d5⟩ := spec_removeNode_drop _ hswf n hn'
   obtain ⟨a2, k1, k2, k3, k4, k5, k6, k7, k8, k9⟩ := spec_removeNode_keep _ hswf n hn'
   refine ⟨⟨a1, d1, by rw [d2, keys_del], d3, d4, d5⟩, a2, k1, by rw [k2, keys_del], k3, k4, ?_, ?_, ?_, ?_, ?_⟩
   · intro x
-    rw [mem_keys_iff, k6 x]
+    rw [C01.mem_keys_iff, k6 x]
     constructor
-    · rintro ⟨e, h1, h2⟩; exact ⟨e, (mem_keys_iff _ _).mpr h1, h2⟩
-    · rintro ⟨e, h1, h2⟩; exact ⟨e, (mem_keys_iff _ _).mp h1, h2⟩
+    · rintro ⟨e, h1, h2⟩; exact ⟨e, (C01.mem_keys_iff _ _).mpr h1, h2⟩
+    · rintro ⟨e, h1, h2⟩; exact ⟨e, (C01.mem_keys_iff _ _).mp h1, h2⟩
   · intro hw x hx; exact k7 hw x hx
   · intro hw x hx
-    obtain ⟨p, hp⟩ := Option.isSome_iff_exists.mp ((mem_keys_iff _ _).mp hx)
+    obtain ⟨p, hp⟩ := Option.isSome_iff_exists.mp ((C01.mem_keys_iff _ _).mp hx)
     obtain ⟨w, md⟩ := p
     rw [(spec_weightOf_get a2 x w md hp).1]
     exact k5.unw (by rw [k3]; exact hw) x w md hp
   · intro x hx hno
-    exact k8 x hx (fun e he hne => hno e ((mem_keys_iff _ _).mpr he) hne)
+    exact k8 x hx (fun e he hne => hno e ((C01.mem_keys_iff _ _).mpr he) hne)
   · rintro x ⟨e, h1, h2, h3⟩
-    obtain ⟨e', g1, g2, g3, g4⟩ := k9 x ⟨e, (mem_keys_iff _ _).mp h1, h2, h3⟩
-    exact ⟨e', (mem_keys_iff _ _).mpr g1, g2, g3, g4⟩
+    obtain ⟨e', g1, g2, g3, g4⟩ := k9 x ⟨e, (C01.mem_keys_iff _ _).mp h1, h2, h3⟩
+    exact ⟨e', (C01.mem_keys_iff _ _).mpr g1, g2, g3, g4⟩
 
 /-- non-vacuity: in the demo history, after command 9, node 3 lies in `{1,2,3}` (weight 14) and `{3,4}` (weight 2) next to
 `{1,2}` (weight 12): shrinking merges 14 into 12 and turns `{3,4}` into `{4}`; dropping leaves `{1,2}` alone -/
@@ -657,3 +659,225 @@ theorem C01_side_tables (s : Full) (raw : List Nat) (n : Node) (md : Meta) (name
     by_cases hp : (get? s.empties name).isSome = true
     · simp [hp]
     · simp [hp]
+
+/-! ## Second extension round: the constructor as one call, the hashing view, `get_mapping`, the raw tables
+(`Model/C01Ext.lean`, `Proofs/C01Ext.lean`) -/
+
+/-- **The constructor is one modelled call.**  For all constructor arguments whose hyperedges are node sets: the
+constructor on the tables is accepted iff the constructor on the map is, and then `abs` of the object is the map's object;
+an accepted call IS the history `new`, `add_node(node, metadata)` per `node_metadata` item, one `add_edges(edge_list,
+weights, edge_metadata)` (none when `edge_list` is empty / None) on a fresh slot, every call well-formed - so the object is
+`Reachable`, satisfies `Inv`, and every other theorem of this file speaks about constructed objects. -/
+theorem C01_constructor (a : CtorArgs) (ha : a.WF) :
+    (construct a).map abs = Spec.construct a ∧
+    ∀ s, construct a = some s →
+      run (init 1) (ctorCmds 0 a) = [s] ∧ (∀ c ∈ ctorCmds 0 a, c.WF) ∧ C01.Reachable s ∧ Inv s := by
+  refine ⟨(construct_sim a ha).1, fun s hs => ?_⟩
+  have hrun := construct_run a s hs
+  have hwf := ctorCmds_wf a ha
+  exact ⟨hrun, hwf, ⟨1, ctorCmds 0 a, 0, hwf, by rw [hrun]; rfl⟩, (construct_sim a ha).2 s hs⟩
+
+/-- **When the constructor raises.**  With an empty / absent `edge_list` it never raises (whatever `weights` and
+`edge_metadata` are); otherwise it raises iff its own length test fires (`weighted and weights is not None and
+len(edge_list) != len(weights)`) or the one `add_edges` call on the object holding the `node_metadata` nodes raises; a
+failed validation of `add_edges` (repeated tuple with weights, wrong number of weights, too few metadata entries) is
+such a case; and the tables raise exactly when the map does. -/
+theorem C01_constructor_rejects (a : CtorArgs) (ha : a.WF) :
+    (a.edges = [] → (construct a).isSome) ∧
+    (construct a = none ↔ a.edges ≠ [] ∧ (ctorLenBad a = true ∨
+        (addEdges (ctorNodes (Store.new a.weighted a.hm) a.nodeMeta) a.edges a.weights a.emetas).2 = .rej)) ∧
+    (a.edges ≠ [] → addEdgesValid a.edges a.weights a.emetas = false → construct a = none) ∧
+    (construct a = none ↔ Spec.construct a = none) := by
+  have key : construct a = none ↔ a.edges ≠ [] ∧ (ctorLenBad a = true ∨
+        (addEdges (ctorNodes (Store.new a.weighted a.hm) a.nodeMeta) a.edges a.weights a.emetas).2 = .rej) := by
+    unfold construct
+    simp only []
+    by_cases he : a.edges = []
+    · simp [he]
+    · have he' : a.edges.isEmpty = false := by simpa using he
+      simp only [he', Bool.false_eq_true, if_false, ne_eq, he, not_false_eq_true, true_and]
+      by_cases hb : ctorLenBad a = true
+      · simp [hb]
+      · simp only [hb, Bool.false_eq_true, if_false, false_or]
+        generalize addEdges (ctorNodes (Store.new a.weighted a.hm) a.nodeMeta) a.edges a.weights a.emetas = r
+        obtain ⟨s', o⟩ := r
+        cases o <;> simp
+  refine ⟨?_, key, ?_, ?_⟩
+  · intro he
+    cases h : construct a with
+    | some _ => rfl
+    | none => exact absurd he (key.mp h).1
+  · intro he hv
+    exact key.mpr ⟨he, Or.inr (by simp [addEdges, hv])⟩
+  · rw [← (construct_sim a ha).1]; simp
+
+/-- non-vacuity: a weighted constructor call with node metadata, an unsorted hyperedge and a repeated one in another node
+order (weights add up) is accepted; its history is well-formed; a call with 2 hyperedges and 1 weight raises; so does an
+unweighted one with a repeated tuple and weights; `edge_list=[]` with a stray weight list does not -/
+example :
+    let a : CtorArgs := { weighted := true, hm := [(5, 6)], nodeMeta := [(9, [(1, 1)]), (2, [])],
+                          edges := [[3, 1, 2], [2, 4]], weights := some [8, 4], emetas := some [[(2, 5)], []] }
+    a.WF ∧ (construct a).isSome = true ∧ (construct a).map abs = Spec.construct a ∧
+    (construct a).map (fun s => answer s .nodes) = some (.nats [9, 2, 1, 3, 4]) ∧
+    construct { a with weights := some [8] } = none ∧
+    construct { a with weighted := false, edges := [[1, 2], [1, 2]], weights := some [4, 4] } = none ∧
+    (construct { a with edges := [], weights := some [4] }).isSome = true := by decide
+
+/-- **`populate_from_dict ∘ expose_data_structures = id`** on the nine tables (and the exposed dictionary of a populated
+object is the dictionary): the route is a faithful copy of node and hyperedge tables, ids and id counter included. -/
+theorem C01_tables_roundtrip (s : Store) (d : TableDict) :
+    populate (exposeTables s) = s ∧ exposeTables (populate d) = d ∧
+    abs (populate (exposeTables s)) = abs s ∧ (Inv s → Inv (populate (exposeTables s))) :=
+  ⟨rfl, rfl, rfl, id⟩
+
+/-- **The hashing view is the abstract hypergraph in canonical order.**  On every reachable object
+`expose_attributes_for_hashing()` cannot raise and returns the flag, the hypergraph metadata, exactly the map's entries
+(key, weight, metadata), each once, in strictly increasing (lexicographic) key order, and exactly the nodes with their
+metadata in strictly increasing label order. -/
+theorem C01_hashing (s : Store) (hr : C01.Reachable s) :
+    hashView s = some (Spec.hashView (abs s)) ∧
+    (Spec.hashView (abs s)).edges.Perm (abs s).edges ∧
+    (Spec.hashView (abs s)).edges.Pairwise (fun x y => C03.ltList x.1 y.1 = true) ∧
+    (Spec.hashView (abs s)).nodes.Perm (abs s).nodes ∧
+    (Spec.hashView (abs s)).nodes.Pairwise (fun x y => x.1 < y.1) := by
+  have h := hr.inv
+  have hek : ((abs s).edges.map (fun r => r.1)).Nodup := by
+    have := abs_keys s; unfold keys at this; rw [this]; exact h.el_nodup
+  have hnk : ((abs s).nodes.map (fun p => p.1)).Nodup := by
+    show (keys s.nmeta).Nodup
+    rw [h.nm_keys]; exact h.adj_nodup
+  refine ⟨hashView_abs s h, C03.sortBy_perm _ _ _, C03.sortBy_sorted _ _ st_ltList _ hek, C03.sortBy_perm _ _ _, ?_⟩
+  have := C03.sortBy_sorted (fun (p : Node × Meta) => p.1) C03.ltNat C03.st_ltNat (abs s).nodes hnk
+  exact this.imp (fun h => by simpa [C03.ltNat] using h)
+
+/-- **The hashing view is canonical.**  Two reachable objects (any histories, insertion orders, ids) have the same
+hashing view IFF they have the same flag, the same hypergraph metadata, the same (key, weight, metadata) entries and the
+same nodes with metadata up to order. -/
+theorem C01_hashing_canonical (s t : Store) (hs : C01.Reachable s) (ht : C01.Reachable t) :
+    hashView s = hashView t ↔
+      (s.weighted = t.weighted ∧ s.hmeta = t.hmeta ∧ (abs s).edges.Perm (abs t).edges ∧ (abs s).nodes.Perm (abs t).nodes) := by
+  have h1 := hs.inv
+  have h2 := ht.inv
+  have hek : ((abs s).edges.map (fun r => r.1)).Nodup := by
+    have := abs_keys s; unfold keys at this; rw [this]; exact h1.el_nodup
+  have hnk : ((abs s).nodes.map (fun p => p.1)).Nodup := by
+    show (keys s.nmeta).Nodup
+    rw [h1.nm_keys]; exact h1.adj_nodup
+  rw [hashView_abs s h1, hashView_abs t h2]
+  constructor
+  · intro h
+    have h := Option.some.inj h
+    have hw : s.weighted = t.weighted := congrArg HashView.weighted h
+    have hm : s.hmeta = t.hmeta := congrArg HashView.hmeta h
+    have he : (Spec.hashView (abs s)).edges = (Spec.hashView (abs t)).edges := congrArg HashView.edges h
+    have hn : (Spec.hashView (abs s)).nodes = (Spec.hashView (abs t)).nodes := congrArg HashView.nodes h
+    refine ⟨hw, hm, ?_, ?_⟩
+    · exact ((C03.sortBy_perm _ _ (abs s).edges).symm.trans (List.Perm.of_eq he)).trans (C03.sortBy_perm _ _ (abs t).edges)
+    · exact ((C03.sortBy_perm _ _ (abs s).nodes).symm.trans (List.Perm.of_eq hn)).trans (C03.sortBy_perm _ _ (abs t).nodes)
+  · rintro ⟨hw, hm, he, hn⟩
+    have e1 := C03.sortBy_perm_eq (fun (r : Edge × (Int × Meta)) => r.1) C03.ltList st_ltList _ _ hek he
+    have e2 := C03.sortBy_perm_eq (fun (p : Node × Meta) => p.1) C03.ltNat C03.st_ltNat _ _ hnk hn
+    have hw' : (abs s).weighted = (abs t).weighted := hw
+    have hm' : (abs s).hmeta = (abs t).hmeta := hm
+    simp only [Spec.hashView, e1, e2, hw', hm']
+
+/-- **`get_mapping()` is a bijection in label order.**  On every reachable object the encoder's classes are exactly the
+nodes, each once, in strictly increasing label order (the same list the abstract hypergraph gives); `transform` answers
+for a label iff it is a node, the class at the returned position is that label, and two nodes with the same position are
+the same node. -/
+theorem C01_mapping (s : Store) (hr : C01.Reachable s) :
+    mapping s = Spec.mapping (abs s) ∧
+    (mapping s).Perm (keys s.adj) ∧ (mapping s).Nodup ∧ (mapping s).Pairwise (· < ·) ∧
+    (∀ n, (C03.indexOf? (mapping s) n).isSome ↔ answer s (.checkNode n) = .bool true) ∧
+    (∀ n i, C03.indexOf? (mapping s) n = some i → (mapping s)[i]? = some n) ∧
+    (∀ n m i, C03.indexOf? (mapping s) n = some i → C03.indexOf? (mapping s) m = some i → n = m) := by
+  have h := hr.inv
+  have hperm : (mapping s).Perm (keys s.adj) := C03.sortBy_perm _ _ _
+  have hsorted : (mapping s).Pairwise (· < ·) := by
+    have := C03.sortBy_sorted (id : Node → Node) C03.ltNat C03.st_ltNat (keys s.adj) (by simpa using h.adj_nodup)
+    exact this.imp (fun h => by simpa [C03.ltNat] using h)
+  refine ⟨?_, hperm, hperm.nodup_iff.mpr h.adj_nodup, hsorted, ?_, fun n i hi => C03.indexOf?_get _ n i hi, ?_⟩
+  · show C03.sortBy id C03.ltNat (keys s.adj) = C03.sortBy id C03.ltNat (keys s.nmeta)
+    rw [h.nm_keys]
+  · intro n
+    rw [C03.indexOf?_some_iff, hperm.mem_iff, C01.mem_keys_iff]
+    simp [answer]
+  · intro n m i hn hm
+    have a := C03.indexOf?_get _ n i hn
+    have b := C03.indexOf?_get _ m i hm
+    rw [a] at b; exact Option.some.inj b
+
+/-- non-vacuity on the demo history (slot 0 holds nodes inserted as 3,1,2,4,7,8 with 3 removed, one hyperedge left):
+the hashing view exists and lists the nodes in label order, the mapping is sorted, `transform` of the removed node raises,
+the view of the table route is the source's -/
+example :
+    let s := ((run (init 2) C01.demo)[0]?).getD {}
+    answer s .nodes = .nats [1, 2, 4, 7, 8] ∧ mapping s = [1, 2, 4, 7, 8] ∧
+    C03.indexOf? (mapping s) 4 = some 2 ∧ C03.indexOf? (mapping s) 3 = none ∧
+    (hashView s).map (fun v => v.nodes.map (·.1)) = some [1, 2, 4, 7, 8] ∧
+    (hashView s).map (fun v => v.edges.map (·.1)) = some ((abs s).edges.map (·.1)) ∧
+    hashView (populate (exposeTables s)) = hashView s := by decide
+
+/-- **`subhypergraph_largest_component(size, order)` as a modelled call** (`Model/C01Lcc.lean`: the component routine and
+`max(components, key=len)` of `Model/C08.lean` on the object's own listings, then `subhypergraph`).  On every reachable
+object: (1) the call on the tables is matched by the same call on the abstract hypergraph - same outcome, `abs` of the new
+object is the abstract result, the new object satisfies `Inv`; (2) it raises iff `size` and `order` are both given or the
+hypergraph has no node (`max()` of no component); (3) otherwise the node list handed on is a member of
+`connected_components(size, order)` of maximal length (the FIRST such in the order of `get_nodes()`: `C08.maxByLen`), all
+its members are nodes, and the result is `subhypergraph` of it: the source's flag, fresh hypergraph metadata, exactly the
+component's nodes with the source's metadata, exactly the source's hyperedges inside the component, in the source's order,
+each with the source's weight and metadata. -/
+theorem C01_subhypergraph_largest_component (s : Store) (hr : C01.Reachable s) (o k : Option Int) :
+    (abs (subLcc s o k).1 = (Spec.subLcc (abs s) o k).1 ∧ (subLcc s o k).2 = (Spec.subLcc (abs s) o k).2 ∧
+      Inv (subLcc s o k).1) ∧
+    ((subLcc s o k).2 = .ok ↔ ¬ (o.isSome = true ∧ k.isSome = true) ∧ answer s .numNodes ≠ .int 0) ∧
+    (∀ f comp, lccFilt o k = some f → C08.largestComponent (keys s.adj) (keys s.edgeList) f = some comp →
+      comp ∈ C08.components (keys s.adj) (keys s.edgeList) f ∧
+      (∀ d ∈ C08.components (keys s.adj) (keys s.edgeList) f, d.length ≤ comp.length) ∧
+      (∀ n ∈ comp, answer s (.checkNode n) = .bool true) ∧
+      (subLcc s o k).2 = .ok ∧
+      abs (subLcc s o k).1 = (Spec.subhypergraph (abs s) comp).1 ∧
+      (abs (subLcc s o k).1).weighted = s.weighted ∧
+      (abs (subLcc s o k).1).hmeta = initHMeta s.weighted [] ∧
+      (∀ m, get? (abs (subLcc s o k).1).nodes m = if m ∈ comp then get? (abs s).nodes m else none) ∧
+      keys (abs (subLcc s o k).1).edges = (keys (abs s).edges).filter (insideOf comp) ∧
+      ∀ x, get? (abs (subLcc s o k).1).edges x = if insideOf comp x then get? (abs s).edges x else none) := by
+  have h := hr.inv
+  refine ⟨subLcc_sim s h o k, ?_, ?_⟩
+  · rw [subLcc_ok_iff s h o k]
+    have e1 : ((lccFilt o k).isSome = true) ↔ ¬ (o.isSome = true ∧ k.isSome = true) := by
+      cases o <;> cases k <;> simp [lccFilt]
+    have e2 : keys s.adj ≠ [] ↔ answer s .numNodes ≠ .int 0 := by
+      simp only [answer, ne_eq, Ans.int.injEq]
+      cases keys s.adj with
+      | nil => simp
+      | cons a t =>
+        have : ¬ ((t.length : Int) + 1 = 0) := by omega
+        simpa using this
+    rw [e1, e2]
+  · intro f comp hf hc
+    have hl : lccNodes (keys s.adj) (keys s.edgeList) o k = some comp := by unfold lccNodes; rw [hf]; exact hc
+    have e1 : subLcc s o k = subhypergraph s comp := by unfold subLcc; rw [hl]
+    have hsome := comp_nodes_some s h o k comp hl
+    have hs := sim_extract s (.sub comp) h
+    have habs : abs (subhypergraph s comp).1 = (Spec.subhypergraph (abs s) comp).1 := hs.1
+    obtain ⟨c1, c2⟩ := spec_subhypergraph (abs s) (abs_swf h) comp
+    obtain ⟨d1, d2, d3, d4, d5⟩ := c2 hsome
+    have hok : (subLcc s o k).2 = .ok := by
+      rw [e1, show (subhypergraph s comp).2 = (Spec.subhypergraph (abs s) comp).2 from hs.2.1]; exact c1.mpr hsome
+    refine ⟨maxByLen_mem _ _ hc, maxByLen_ge _ _ hc, ?_, hok, by rw [e1, habs], by rw [e1, habs]; exact d1,
+      by rw [e1, habs]; exact d2, by rw [e1, habs]; exact d3, by rw [e1, habs]; exact d4, by rw [e1, habs]; exact d5⟩
+    intro n hn
+    have := lccNodes_sub s h o k comp hl n hn
+    have := (C01.mem_keys_iff _ _).mp this
+    simp [answer, this]
+
+/-- non-vacuity on slot 0 of the demo history (nodes 1,2,4,7,8): the call is accepted there (by part (2): the component
+routine is defined by well-founded recursion and does not reduce in the kernel); with both arguments it raises; on a fresh
+object it raises -/
+example :
+    let s := ((run (init 2) C01.demo)[0]?).getD {}
+    C01.Reachable s ∧ (subLcc s none none).2 = .ok ∧
+    (subLcc s (some 1) (some 2)).2 = .rej ∧ (subLcc (Store.new true []) none none).2 = .rej := by
+  have hr : C01.Reachable (((run (init 2) C01.demo)[0]?).getD {}) := ⟨2, C01.demo, 0, C01.demo_wf, by decide⟩
+  exact ⟨hr, ((C01_subhypergraph_largest_component _ hr none none).2.1).mpr ⟨by decide, by decide⟩, by decide, by decide⟩
